@@ -1368,7 +1368,7 @@ impl<'a> CompilerState<'a> {
                                                         }
                                                     }
                                                     Rule::ptr_offset => {
-                                                        let sign = if x.as_str().starts_with("-") { -1 } else { 1 };
+                                                        let sign: i32 = if x.as_str().starts_with("-") { -1 } else { 1 };
                                                         let offset = self.parse_int(
                                                             x.into_inner()
                                                                 .next()
@@ -1382,7 +1382,7 @@ impl<'a> CompilerState<'a> {
                                                             Rule::ptr_low => {
                                                                 let val = self.parse_calc(x.into_inner().next().unwrap().into_inner())?;
                                                                 if val == 255 {
-                                                                    VariableValue::LowPtr((id_name, sign * offset))
+                                                                    VariableValue::LowPtr((id_name, sign.wrapping_mul(offset)))
                                                                 } else {
                                                                     return Err(self.syntax_error(&format!("Incorrect suffix to reference {}", id_name), start))
                                                                 }
@@ -1390,14 +1390,14 @@ impl<'a> CompilerState<'a> {
                                                             Rule::ptr_hi => {
                                                                 let val = self.parse_calc(x.into_inner().next().unwrap().into_inner())?;
                                                                 if val == 8 {
-                                                                    VariableValue::HiPtr((id_name, sign * offset))
+                                                                    VariableValue::HiPtr((id_name, sign.wrapping_mul(offset)))
                                                                 } else {
                                                                     return Err(self.syntax_error(&format!("Incorrect suffix to reference {}", id_name), start))
                                                                 }
                                                             },
                                                             _ => return Err(self.syntax_error(&format!("Incorrect suffix to reference {}", id_name), start))
                                                         },
-                                                        None => VariableValue::LowPtr((id_name, sign * offset)),
+                                                        None => VariableValue::LowPtr((id_name, sign.wrapping_mul(offset))),
                                                     }
                                                     }
                                                     _ => {
@@ -1477,14 +1477,14 @@ impl<'a> CompilerState<'a> {
                                                                     }
                                                                 },
                                                                 Rule::ptr_offset => {
-                                                                    let sign = if x.as_str().starts_with("-") { -1 } else { 1 };
+                                                                    let sign: i32 = if x.as_str().starts_with("-") { -1 } else { 1 };
                                                                     let offset = self.parse_int(x.into_inner().next().unwrap().into_inner().next().unwrap())?;
                                                                     match pxxx.next() {
                                                                         Some(x) => match x.as_rule() {
                                                                             Rule::ptr_low => {
                                                                                 let val = self.parse_calc(x.into_inner().next().unwrap().into_inner())?;
                                                                                 if val == 255 {
-                                                                                    v.push(VariableValue::LowPtr((id_name, sign * offset)))
+                                                                                    v.push(VariableValue::LowPtr((id_name, sign.wrapping_mul(offset))))
                                                                                 } else {
                                                                                     return Err(self.syntax_error(&format!("Incorrect suffix to reference {}", id_name), start))
                                                                                 }
@@ -1492,14 +1492,14 @@ impl<'a> CompilerState<'a> {
                                                                             Rule::ptr_hi => {
                                                                                 let val = self.parse_calc(x.into_inner().next().unwrap().into_inner())?;
                                                                                 if val == 8 {
-                                                                                    v.push(VariableValue::HiPtr((id_name, sign * offset)))
+                                                                                    v.push(VariableValue::HiPtr((id_name, sign.wrapping_mul(offset))))
                                                                                 } else {
                                                                                     return Err(self.syntax_error(&format!("Incorrect suffix to reference {}", id_name), start))
                                                                                 }
                                                                             },
                                                                             _ => return Err(self.syntax_error(&format!("Incorrect suffix to reference {}", id_name), start))
                                                                         },
-                                                                        None => v.push(VariableValue::LowPtr((id_name, sign * offset))),
+                                                                        None => v.push(VariableValue::LowPtr((id_name, sign.wrapping_mul(offset)))),
                                                                     }
                                                                 },
                                                                 _ => return Err(self.syntax_error(&format!("Incorrect suffix to reference {}", id_name), start))
@@ -1543,8 +1543,8 @@ impl<'a> CompilerState<'a> {
                                                         let offset = match pxxx.next() {
                                                             Some(x) => match x.as_rule() {
                                                                 Rule::ptr_offset => {
-                                                                    let sign = if x.as_str().starts_with("-") { -1 } else { 1 };
-                                                                    sign * self.parse_int(x.into_inner().next().unwrap().into_inner().next().unwrap())?
+                                                                    let sign: i32 = if x.as_str().starts_with("-") { -1 } else { 1 };
+                                                                    sign.wrapping_mul(self.parse_int(x.into_inner().next().unwrap().into_inner().next().unwrap())?)
                                                                 },
                                                                 _ => return Err(self.syntax_error(&format!("Incorrect suffix to reference {}", s), start))
                                                             },
